@@ -2256,4 +2256,18 @@ theorem componentTypes_unknown (cls ty : Nat)
   · rw [h1]; exact default_ok
   · rw [h a ha] at h3; cases h3
 
+/-- the generated `match rr_type` arms of `Rdata::components`, as a decision list -/
+theorem lookup_arms (cls ty : Nat) :
+    QV.Rdata.lookup Gen.rdataComponentsArms Gen.rdataComponentsDefault cls ty =
+      if ty = 2 ∨ ty = 3 ∨ ty = 4 ∨ ty = 5 ∨ ty = 7 ∨ ty = 8 ∨ ty = 9 ∨ ty = 12 then "for_single_compressible_name"
+      else if ty = 1 ∧ cls = 3 then "components_as_ch_a"
+      else if ty = 6 then "components_as_soa"
+      else if ty = 14 then "components_as_minfo"
+      else if ty = 15 then "components_as_mx"
+      else if ty = 33 ∧ cls = 1 then "components_as_in_srv"
+      else "for_nameless" := by
+  simp only [Gen.rdataComponentsArms, Gen.rdataComponentsDefault, QV.Rdata.lookup, List.contains_cons,
+    List.contains_nil, Bool.or_false, Bool.and_true, Bool.or_eq_true, beq_iff_eq, Bool.and_eq_true]
+
+
 end QV.Writer
